@@ -6,7 +6,7 @@ args = sys.argv[1:]
 extra = []
 while args and args[0].startswith("--"):
     extra += args[:2]; args = args[2:]
-pool = sorted(glob.glob("/tmp/ve/[0-9]*"))
+pool = [d for d in sorted(glob.glob("/tmp/ve/[0-9]*")) if os.path.isdir(d)]
 q = queue.Queue()
 for s in args: q.put(s)
 lock = threading.Lock()
